@@ -28,6 +28,7 @@ var protoErrors = map[string]struct {
 
 func init() {
 	register("C05", func(c *core.Ctx, tier string) {
+		serverEffects(c, "C05.11")
 		c05ErrorTable(c)
 		c05Precedence(c)
 		c05RevisionLast(c)
